@@ -539,6 +539,244 @@ def mon_c13(ix: Index):
     return out
 
 
+# =============================================================================== C14
+CB_FAIL = ("FAILED", "TIMED_OUT", "CANCELLED", "STOPPED")
+
+
+def mon_c14(ix: Index):  # noqa: C901, PLR0912
+    import json as _json
+
+    from dw.canon import canon
+
+    out = []
+    n = 0
+    delivered: dict[str, dict] = {}  # op name -> world delivery
+    for e in ix.trace:
+        if e["kind"] == "world" and e.get("what") == "external":
+            delivered[e["name"]] = e
+    cbids: dict[str, str] = {}
+    starts: dict[str, int] = {}
+    for a in ix.applied:
+        u = a.get("u")
+        if u and u.get("Type") == "CHAINED_INVOKE" and u.get("Action") == "START":
+            path = ix.id2path.get(u["Id"], "?")
+            starts[path] = starts.get(path, 0) + 1
+            node = ix.nodes.get(path)
+            if node:
+                n += 1
+                cfg = node.get("cfg") or {}
+                sp = cfg.get("serdes_payload")
+                want = _json.dumps(node.get("payload"))
+                if sp == "tagged":
+                    want = "TAG:" + want
+                elif sp == "utf8json":
+                    want = _json.dumps(node.get("payload"), ensure_ascii=False)
+                got = u.get("Payload")
+                if (got or None) != (want or None):
+                    out.append(V("C14", "C14/invoke-start-payload-wrong", "%s START carried %r, expected %r" % (path, str(got)[:80], want[:80]), a["seq"]))
+                opts = u.get("ChainedInvokeOptions") or {}
+                if opts.get("FunctionName") != node["fn"]:
+                    out.append(V("C14", "C14/invoke-start-function-name-wrong", "%s FunctionName %r" % (path, opts.get("FunctionName")), a["seq"]))
+                if cfg.get("tenant") is not None and opts.get("TenantId") != cfg["tenant"]:
+                    out.append(V("C14", "C14/invoke-start-tenant-missing", "%s TenantId %r" % (path, opts.get("TenantId")), a["seq"]))
+    for path, c in starts.items():
+        if c > 1:
+            out.append(V("C14", "C14/invoke-started-more-than-once", "%s sent START %d times" % (path, c)))
+    for e in ix.trace:
+        k = e["kind"]
+        ok_ = e.get("opkind")
+        if ok_ not in ("cb", "invoke", "wfcb"):
+            continue
+        path = e["path"]
+        node = ix.nodes.get(path) or {}
+        cfg = node.get("cfg") or {}
+        if ok_ == "cb" and e.get("phase") == "create":
+            if k == "exc":
+                out.append(V("C14", "C14/create-callback-raised/%s" % e.get("st"), "%s create_callback raised %s (status %s)" % (path, e["cls"], e.get("st")), e["i"]))
+            elif k == "ret":
+                n += 1
+                want = canon(e.get("cbid"))
+                if e.get("val") != want:
+                    out.append(V("C14", "C14/callback-id-not-backend-issued", "%s returned %s, backend issued %s" % (path, e.get("val"), want), e["i"]))
+                if cbids.setdefault(path, e["val"]) != e["val"]:
+                    out.append(V("C14", "C14/callback-id-changed-across-invocations", "%s: %s then %s" % (path, cbids[path], e["val"]), e["i"]))
+            continue
+        name = path if ok_ != "wfcb" else path + " create callback id"
+        d = delivered.get(name)
+        if k == "susp":
+            n += 1
+            if ok_ != "wfcb" and e.get("st") != "STARTED":
+                out.append(V("C14", "C14/suspended-although-not-outstanding/%s-%s" % (ok_, e.get("st")), "%s suspended with status %s" % (path, e.get("st")), e["i"]))
+        elif k == "ret" and ok_ in ("cb", "invoke"):
+            n += 1
+            if e.get("st") != "SUCCEEDED":
+                continue  # C03 reports it
+            raw = d.get("result") if d else None
+            sd = cfg.get("serdes") if ok_ == "cb" else (cfg.get("serdes_result") or "json")
+            try:
+                if raw is None:
+                    want = canon(None)
+                elif sd in ("json", "utf8json"):
+                    want = canon(_json.loads(raw))
+                elif sd == "tagged":
+                    want = canon(_json.loads(raw[4:]))
+                else:
+                    want = canon(raw)
+            except Exception:  # noqa: BLE001
+                want = None
+            if want is not None and e.get("val") != want:
+                out.append(V("C14", "C14/%s-result-not-delivered-payload" % ok_, "%s returned %s, external party delivered %r" % (path, str(e.get("val"))[:80], str(raw)[:80]), e["i"]))
+        elif k == "exc" and ok_ in ("cb", "invoke"):
+            mro = e.get("mro") or []
+            if ok_ == "cb":
+                if e["cls"] == "CallbackError":
+                    n += 1
+                    if e.get("st") not in CB_FAIL:
+                        out.append(V("C14", "C14/callback-error-without-failed-status/%s" % e.get("st"), "%s raised CallbackError with status %s" % (path, e.get("st")), e["i"]))
+                    elif d is not None:
+                        wantmsg = ((d.get("error") or {}).get("ErrorMessage")) or "Callback failed"
+                        if e.get("msg") != wantmsg:
+                            out.append(V("C14", "C14/callback-error-message-wrong", "%s message %r, delivered %r" % (path, e.get("msg"), wantmsg), e["i"]))
+                elif e.get("st") in CB_FAIL and "InvocationError" not in mro and "BaseException" != mro[0]:
+                    out.append(V("C14", "C14/callback-failure-raised-wrong-class/%s" % e["cls"], "%s raised %s for status %s" % (path, e["cls"], e.get("st")), e["i"]))
+            elif e["cls"] == "CallableRuntimeError":
+                n += 1
+                if e.get("st") not in ("FAILED", "TIMED_OUT", "STOPPED"):
+                    out.append(V("C14", "C14/invoke-error-without-failed-status/%s" % e.get("st"), "%s raised with status %s" % (path, e.get("st")), e["i"]))
+                elif d is not None:
+                    err = d.get("error") or {}
+                    if err and (e.get("msg") != str(err.get("ErrorMessage")) or e.get("etype") != err.get("ErrorType")):
+                        out.append(V("C14", "C14/invoke-error-not-recorded-error", "%s raised (%r,%r), recorded %r" % (path, e.get("msg"), e.get("etype"), err), e["i"]))
+    # a terminal callback/invoke must not leave its caller suspended, and a failed one must raise
+    for inv, evs in ix.by_inv.items():
+        start = next((x for x in evs if x["kind"] == "inv_start"), None)
+        if not start:
+            continue
+        for e in evs:
+            if e["kind"] == "ret" and e.get("opkind") in ("cb", "invoke") and e.get("phase") != "create" and start["statuses"].get(e.get("oid")) in CB_FAIL:
+                out.append(V("C14", "C14/failed-%s-returned-value" % e["opkind"], "%s was %s but returned %s" % (e["path"], start["statuses"][e["oid"]], e.get("val")), e["i"]))
+    ix.r.setdefault("stats", {})["c14_events"] = n
+    return out
+
+
+# =============================================================================== C17
+def mon_c17(ix: Index):  # noqa: C901, PLR0912
+    out = []
+    n = 0
+    order = {p: i for i, (p, _n) in enumerate(walk(ix.prog["body"]))}
+    arn = "arn:verif:exec/0"
+    # units: logs inside map/parallel branches are not judged (blocks are treated as units)
+
+    def in_block(path):
+        parts = path.split("/")
+        for i in range(1, len(parts)):
+            node = ix.nodes.get("/".join(parts[:i]))
+            if node is not None and node["k"] in ("par", "map"):
+                return True
+        return False
+
+    for inv, evs in ix.by_inv.items():
+        start = next((x for x in evs if x["kind"] == "inv_start"), None)
+        if not start:
+            continue
+        term_pos = []
+        for oid, st in start["statuses"].items():
+            if st in TERMINAL:
+                p = ix.id2path.get(oid)
+                if p is None:
+                    continue
+                base = p.split("@")[0]
+                # the operation's own position; inner SDK-made ops of a wait_for_callback sit at the unit's position
+                if base in order:
+                    term_pos.append((order[base], p))
+                else:
+                    m = re.match(r"^(.*)/b\d+$", base)
+                    if m and m.group(1) in order:
+                        term_pos.append((order[m.group(1)], p))
+        last_done = max(term_pos)[0] if term_pos else -1
+        last_done_path = max(term_pos)[1] if term_pos else None
+        # position of the furthest operation the earlier invocations reached (any status): log calls between the last completed
+        # and the furthest started operation were already run once but precede no completed operation - the statement is silent
+        # about them, so they are not judged
+        known_pos = []
+        for oid in start["statuses"]:
+            p = ix.id2path.get(oid)
+            if p is None:
+                continue
+            base = p.split("@")[0]
+            while base and base not in order:
+                base = base.rsplit("/", 1)[0] if "/" in base else ""
+            if base in order:
+                known_pos.append(order[base])
+        last_known = max(known_pos) if known_pos else -1
+        history_nonempty = any(st for oid, st in start["statuses"].items() if ix.kind.get(oid) is not None or oid in ix.id2path) or len(start["statuses"]) > 1
+        calls = [e for e in evs if e["kind"] == "logcall"]
+        recs = [e for e in evs if e["kind"] == "logrec"]
+        # pair each call with the record (if any) that follows it before the next call on the same thread
+        for c in calls:
+            path = c["path"]
+            if in_block(path):
+                continue
+            pos = order.get(path)
+            if pos is None:
+                continue
+            if c.get("killed") or c.get("late"):
+                continue
+            if not any(x["i"] > c["i"] and x.get("t") == c.get("t") and not x.get("late") for x in evs if "t" in x):
+                continue  # the process died right after this call: no verdict
+            n += 1
+            emitted = next((r for r in recs if r["i"] > c["i"] and r.get("t") == c.get("t") and r.get("msg") == c["tag"]
+                            and not any(c2["i"] > c["i"] and c2["i"] < r["i"] and c2.get("t") == c.get("t") for c2 in calls)), None)
+            expect_silent = pos < last_done
+            if not expect_silent:
+                judged_audible = pos > last_known or (c.get("where") == "step" and pos >= last_known)
+                if not judged_audible:
+                    n -= 1
+                    continue
+            node = ix.nodes.get(last_done_path.split("@")[0]) if last_done_path else None
+            how = "first-invocation" if len(start["statuses"]) <= 1 else "resumed"
+            if expect_silent and emitted is not None:
+                fp = start.get("first_page")
+                cause = "first-page-%s" % ("execution-op-only" if fp == 1 else ("empty" if fp == 0 else "other"))
+                out.append(V("C17", "C17/replayed-log-emitted/%s" % cause,
+                             "invocation %d: log %s (position %d) precedes completed operation %s yet was emitted (first_page=%s)" % (inv, c["tag"], pos, last_done_path, fp), c["i"]))
+            elif not expect_silent and emitted is None:
+                # classify by what kind of completed history exists
+                kinds = set()
+                for _pos, p in term_pos:
+                    nd = ix.nodes.get(p.split("@")[0])
+                    if "@" in p or (nd is None):
+                        kinds.add("inner-op-of-completed-context")
+                    elif ctx_path(p) is not None:
+                        kinds.add("inner-op-of-completed-context")
+                    if start["statuses"].get(ix.path2id.get(p)) == "FAILED":
+                        kinds.add("failed-op-caught")
+                cause = "+".join(sorted(kinds)) or ("first-invocation" if how == "first-invocation" else "flat-history")
+                out.append(V("C17", "C17/new-log-suppressed/%s" % cause,
+                             "invocation %d: log %s (position %d) is past the last completed operation (%s at %d) yet nothing was emitted" % (inv, c["tag"], pos, last_done_path, last_done), c["i"]))
+            if emitted is not None:
+                ex = emitted.get("extra") or {}
+                if ex.get("executionArn") != arn:
+                    out.append(V("C17", "C17/record-without-execution-arn", "record %s extra %r" % (c["tag"], ex), emitted["i"]))
+                if c.get("where") == "step":
+                    oid = ix.path2id.get(path)
+                    if oid and ex.get("operationId") != oid:
+                        out.append(V("C17", "C17/step-record-wrong-operation-id", "record %s operationId %r" % (c["tag"], ex.get("operationId")), emitted["i"]))
+                    if ex.get("operationName") != path:
+                        out.append(V("C17", "C17/step-record-wrong-operation-name", "record %s operationName %r" % (c["tag"], ex.get("operationName")), emitted["i"]))
+                    if not isinstance(ex.get("attempt"), int):
+                        out.append(V("C17", "C17/step-record-without-attempt", "record %s attempt %r" % (c["tag"], ex.get("attempt")), emitted["i"]))
+                want_parent = ctx_path(path)
+                if want_parent is not None:
+                    pid = ix.path2id.get(want_parent)
+                    if pid and ex.get("parentId") != pid:
+                        out.append(V("C17", "C17/record-wrong-parent-id", "record %s parentId %r, enclosing context %s" % (c["tag"], ex.get("parentId"), want_parent), emitted["i"]))
+                elif ex.get("parentId"):
+                    out.append(V("C17", "C17/record-has-parent-id-at-root", "record %s" % c["tag"], emitted["i"]))
+    ix.r.setdefault("stats", {})["c17_logcalls"] = n
+    return out
+
+
 MONITORS = {
     "C01": mon_c01,
     "C02": mon_c02,
@@ -548,6 +786,8 @@ MONITORS = {
     "C11": mon_c11,
     "C12": mon_c12,
     "C13": mon_c13,
+    "C14": mon_c14,
+    "C17": mon_c17,
 }
 
 
